@@ -79,12 +79,13 @@ RandomOffsetOk(x, td, off) ==            \* apply_random_offset: some `right` an
 ApplyOffset(x, amount) == IF amount > 0 THEN (IF x + amount < PlayfieldWidth THEN x + amount ELSE x)
                           ELSE (IF x + amount > 0 THEN x + amount ELSE x)
 \* returns [S |-> state after, off |-> the offset the code must have chosen, or "any" for the random branch]
-Fruit(S0, x, t, off) ==
+\* td = `(start_time - last_start_time) as i32`: the code truncates the DIFFERENCE of the (possibly fractional) times, so it is an
+\* input here (the recorder computes it from the exact logged times); for whole-millisecond times it is t - S.lastt
+Fruit(S0, x, t, off, td) ==
   LET S == AddFruit(S0) IN
   IF ~S.hr THEN [S |-> S, off |-> 0]
   ELSE IF ~S.haslast \/ S.lastpos = 0 THEN [S |-> [S EXCEPT !.haslast = TRUE, !.lastpos = x, !.lastt = t], off |-> 0]
   ELSE LET pd == x - S.lastpos
-           td == t - S.lastt
        IN IF td > 1000 THEN [S |-> [S EXCEPT !.lastpos = x, !.lastt = t], off |-> 0]
           ELSE IF pd = 0
             THEN [S |-> [NextBool(S) EXCEPT !.draws = @ + 1, !.err = IF RandomOffsetOk(x, td, off) THEN S.err ELSE "random offset out of range"],
